@@ -100,6 +100,8 @@ int rep_case(const char *fmt, ...)
 }
 
 const char *rep_curcase(void) { return g_cur; }
+/* the case just declared (and skipped) is the one a previous run of this shard died in */
+int rep_is_resume_point(void) { return g_run.skip_unit >= 0 && g_unit == g_run.skip_unit && g_case == g_run.skip_case; }
 
 static void set_grow(void)
 {
